@@ -515,7 +515,7 @@ def clause_setbound(repo, chk):
     lo1, hi1, lo2, hi2 = sp.symbols("lo1 hi1 lo2 hi2", real=True)
     for overwrite in (False, True):
         so = SelfObj(vm, {"variables": {"a": sp.Symbol("Va"), "b": sp.Symbol("Vb"), "c": sp.Symbol("Vc")}, "bnd_dic": {"a": ("Bound", "old-a"), "c": ("Bound", "old-c")}, "same_list": [["b", "c"]], "trainable_vars": ["a", "b"]})
-        hooks = {bcls.key: lambda tr_, a_, k_, n_: ("Bound", tuple(a_[:2])), "allow_attr_store": True, vm.methods["get"].key: lambda tr_, a_, k_, n_: sp.Symbol("value")}
+        hooks = {bcls.key: lambda tr_, a_, k_, n_: ("Bound", (tuple(a_) + tuple(k_[x] for x in ("a", "b") if x in k_))[:2]), "allow_attr_store": True, vm.methods["get"].key: lambda tr_, a_, k_, n_: sp.Symbol("value")}
         tr = Translator(repo, hooks=hooks, max_depth=2)
         try:
             tr.call_fn(fn, [{"a": (lo1, hi1), "b": (lo2, hi2)}], {"overwrite": overwrite}, self_obj=so)
@@ -651,3 +651,11 @@ def run(repo, chk, tier):
     clause_pairs(repo, chk)
     clause_getmask(repo, chk)
     clause_h(repo, chk)
+    # tied parameters stay equal through the post-fit standardisation; bounded parameters get the bound transform's own
+    # slopes in every wrapper (shared with C08 / C07)
+    from .c07 import check_transform_wrappers, clause_b as bound_chain
+    from .c08 import clause_std
+
+    clause_std(repo, chk)
+    check_transform_wrappers(repo, chk)
+    bound_chain(repo, chk)
